@@ -415,7 +415,45 @@ def check_terms(prop, tier):
     return 1 if fresh > 0 else 0
 
 
+def check_claims(prop, tier):
+    """C18: claim constructors (spec/Claims.tla, MC_Claims) replayed against CustomClaim and the
+    time-claim constructors."""
+    t0 = time.time()
+    res = verif.run_tlc("MC_Claims.tla", "MC_Claims.cfg", workers=1, timeout=900)
+    verif.require_model_ok(res, "MC_Claims")
+    o = res["out"]
+    cases = {"keys": verif.printed_records(o, "KEYS")[0], "deco": verif.printed_records(o, "DECO")[0],
+             "time": verif.printed_records(o, "TIME")[0], "typed": verif.printed_records(o, "TYPED")[0]}
+    cp = os.path.join(verif.WORK, "claims_%s.json" % tier)
+    json.dump(cases, open(cp, "w"))
+    out = os.path.join(verif.WORK, "c18_%s.json" % tier)
+    verif.run_pv(["replay-claims", "--cases", cp, "--tier", tier, "--seed", str(verif.seed()), "--out", out], timeout=3600)
+    s = _summary(out)
+    fresh = verif.report(prop, s["violations"], tier)
+    coverage = {
+        "states": max(1, res["distinct"]),
+        "transitions": max(1, res["states"]),
+        "traces_validated_against_impl": s["distinct"],
+        "samples": s["samples"],
+        "evaluations": s["evaluations"],
+        "distinct_nontrivial": s["distinct"],
+        "rule": "MC_Claims enumerates every string of length 1..4 over the 13 letters of the registered claim names (%d keys) with the "
+                "result CustomClaim::try_from must give (invariant: exactly the seven names are refused), 12 decorations of each name, "
+                "random Unicode keys; each key x 12 constructor-form/value-type combinations; time constructors x (&str, String) over "
+                "upper-case RFC 3339 renderings (all offsets at stride, 0-9 fraction digits, leap second, years 0000/9999: must be kept "
+                "verbatim, also through a built token) and strings not starting with an ISO 8601 date (must be refused); strings in "
+                "between are not asserted; one evaluation = one constructor call; distinct = distinct input strings" % len(cases["keys"]),
+        "tlc_invariants": "Inv_Exactly, Inv_Count",
+        "exhaustive": False,
+    }
+    verif.write_evidence(prop, tier, coverage,
+                         ["'does not start with an ISO 8601 date' is instantiated as: first four characters are not all ASCII digits and the string does not start with + or -"],
+                         time.time() - t0, s["nviol"])
+    return 1 if fresh > 0 else 0
+
+
 REGISTRY = {}
+REGISTRY["C18"] = check_claims
 REGISTRY["C08"] = check_terms
 REGISTRY["C09"] = check_shapes
 for _p in ("C11", "C12", "C15", "C16"):
